@@ -86,8 +86,12 @@ pub(crate) async fn service(
                     .server
                     .txn(client_id)
                     .map_err(server_error_to_actix)?;
-                txn.new_client(NIL_VERSION_ID).map_err(failure_to_ise)?;
-                txn.commit().map_err(failure_to_ise)?;
+                // An overlapping request may have created the client since the failed
+                // `add_version` call; re-creating it would discard what that request stored.
+                if txn.get_client().map_err(failure_to_ise)?.is_none() {
+                    txn.new_client(NIL_VERSION_ID).map_err(failure_to_ise)?;
+                    txn.commit().map_err(failure_to_ise)?;
+                }
                 continue;
             }
             Err(e) => Err(server_error_to_actix(e)),
